@@ -15,6 +15,30 @@ func init() {
 			return IfaceV{T: rt, V: a[0]}
 		},
 	}
+	// reflect.TypeOf: an opaque *rtype, one identity per dynamic type (only
+	// comparisons of such values are supported; their methods are not)
+	more["reflect.TypeOf"] = func(it *Interp, a []Value) Value {
+		iv, ok := a[0].(IfaceV)
+		if !ok || iv.T == nil {
+			return IfaceV{}
+		}
+		key := "reflect.TypeOf:" + iv.T.String()
+		if it.uniq == nil {
+			it.uniq = map[string]*Obj{}
+		}
+		o := it.uniq[key]
+		if o == nil {
+			o = it.newObj(1, "rtype")
+			it.uniq[key] = o
+			if it.trailOn {
+				k := key
+				it.addUndo(func() { delete(it.uniq, k) })
+			}
+		}
+		rt := it.Prog.ImportedPackage("reflect").Type("rtype").Type()
+		return IfaceV{T: types.NewPointer(rt), V: PtrV{Obj: o}}
+	}
+	more["(internal/reflectlite.rtype).Comparable"] = func(it *Interp, a []Value) Value { return it.S.Bool(true) }
 	more["unique.Make"] = func(it *Interp, a []Value) Value {
 		key, ok := it.concKey(a[0])
 		var o *Obj
